@@ -831,6 +831,16 @@ theorem writeBytes_policy (s s' : Writer) (bs : Bytes) (h : WriterInv s) (e : wr
     s'.buf.size = if s.w + bs.length ≥ s.buf.size then s.buf.size + bs.length else s.buf.size :=
   Proofs.RespWriter.writeBytes_size s bs h s' e
 
+/-- … and a growing `writeBytes` leaves exactly the free space it found (the slack is never replenished by it) -/
+theorem writeBytes_free_space (s s' : Writer) (bs : Bytes) (h : WriterInv s) (e : writeBytes s bs = .ok s') :
+    s'.buf.size - s'.w = if s.w + bs.length ≥ s.buf.size then s.buf.size - s.w else s.buf.size - s.w - bs.length :=
+  Proofs.RespWriter.writeBytes_free s bs h s' e
+
+/-- `writeByte` reallocates iff the array is full (`w >= len(buf)`), then by `defaultSize`: the only source of slack -/
+theorem writeByte_policy (s s' : Writer) (b : UInt8) (h : WriterInv s) (e : writeByte s b = .ok s') :
+    s'.buf.size = (if s.w ≥ s.buf.size then s.buf.size + defaultSize else s.buf.size) ∧ s'.w = s.w + 1 :=
+  Proofs.RespWriter.writeByte_size s b h s' e
+
 /-- `grow(n)` keeps every byte of the old array (stale ones beyond `w` too) and appends n zero bytes -/
 theorem grow_copies_everything (s : Writer) (n : Nat) :
     (grow s n).buf.toList = s.buf.toList ++ List.replicate n 0 ∧ (grow s n).w = s.w ∧
